@@ -7,7 +7,7 @@ patch="$1"; demo="$2"; dest="$3"; shift 3
 W=/tmp/vscratch/confirm_$$
 mkdir -p /tmp/vscratch
 git -C /repo worktree add --detach -f "$W" HEAD >/dev/null 2>&1 || exit 2
-cp -al /repo/target "$W/target" 2>/dev/null
+cp -a /repo/target "$W/target" 2>/dev/null
 mkdir -p "$(dirname "$W/$dest")"
 cp "$demo" "$W/$dest"
 cd "$W" || exit 2
